@@ -131,10 +131,10 @@ def make_profile(rng, alts, n, weak, family):
             a = rand_perm(rng, alts)
             k = rng.randint(2, m)
             return [a[:k]] + [[x] for x in a[k:]]
-        return rand_weak_order(rng, alts, p_tie=rng.choice([0.2, 0.5]))
+        return rand_weak_order(rng, alts, p_tie=rng.choice([0.15, 0.3]))
 
     if family == "vot-planted":
-        s = rng.choice([0, 1, 1, 2, 2, 3])
+        s = rng.choice([0, 1, 1, 1, 2, 2, 2, 3])
         s = min(s, n)
         good = [planted(axis) for _ in range(n - s)]
         bad = [noise() for _ in range(s)]
@@ -151,7 +151,7 @@ def make_profile(rng, alts, n, weak, family):
             prof.append(o)
         return prof, [axis, V], []
     if family == "alt-planted":
-        s = min(rng.choice([0, 1, 1, 2]), max(0, m - 2))
+        s = min(rng.choice([0, 1, 1, 2, 2, 3]), max(0, m - 2))
         D = rng.sample(alts, s)
         ax0 = [a for a in axis if a not in D]
         prof = []
@@ -217,7 +217,7 @@ def generate(tier, seed):
         tocs = tocs + rng.sample(tocs3, 150)
     else:
         tocs3 = [list(c) for c in itertools.combinations(wos3, 3) if not is_strict(list(c))]
-        tocs = rng.sample(tocs, 8) + rng.sample(tocs3, 8)
+        tocs = rng.sample(tocs, 4) + rng.sample(tocs3, 12)
     for prof in tocs:
         fl = ilp_flags()
         if fl:
@@ -236,7 +236,7 @@ def generate(tier, seed):
         fam = fams[i % len(fams)]
         if fam == "toptie" and not weak:
             fam = "random"
-        prof, pv, pa = make_profile(rng, alts, rng.randint(2, 5), weak, fam)
+        prof, pv, pa = make_profile(rng, alts, rng.randint(3, 5), weak, fam)
         fl = ilp_flags() | F_DP
         if fl & 3 or is_strict(prof):
             out.append(mk(alts, prof, fl, 1, pv=pv, pa=pa, family=fam))
@@ -245,7 +245,7 @@ def generate(tier, seed):
         m = rng.randint(2, 6)
         alts = rand_perm(rng, rng.sample(range(1, rng.choice([8, 40])), m))
         fam = ["vot-planted", "alt-planted", "random"][i % 3]
-        prof, pv, pa = make_profile(rng, alts, rng.randint(1, 5), False, fam)
+        prof, pv, pa = make_profile(rng, alts, rng.randint(2, 5), False, fam)
         out.append(mk(alts, prof, F_DP, 1, pv=pv, pa=pa, family=fam))
 
     # ---- larger instances: certificates, core lower bound, planted upper bound.  m <= 10, n <= 8
